@@ -85,6 +85,47 @@ T = {
  'C20-b': 'ikesa.py: TsUnacceptable text renders the configuration record (PSKs)',
  'C20-c': 'ikesa.py: AuthenticationFailed text renders the credential tuple (PSK)',
  'C20-d': 'netlink.py: request hex dump at WARNING on kernel errors',
+ 'C01-e': 'ikesa.py (addition): a new CHILD_SA inherits the selectors of `rekeying_child_sa`, which is never cleared',
+ 'C01-f': 'ikesa.py (data): `create_child_sa(..., is_initiator=self.is_initiator)` - IKE_SA role instead of exchange role',
+ 'C02-e': 'ikesa.py (addition): per-IKE_SA memo of the PSK key pad, shared by signing and verifying',
+ 'C02-f': 'ikesa.py (data): INIT_REQ_SENT / AUTH_REQ_SENT renumbered into the range the CREATE_CHILD_SA gate admits',
+ 'C03-e': 'ikesacontroller.py (addition): reply cache keyed by the clear header, consulted before process_message',
+ 'C03-f': 'crypto.py (data): Integrity table entry (sha1, 12): a one-octet ICV',
+ 'C04-e': 'ikesa.py (addition): `_new_dh` helper stores the responder-side DH object in `self.dh`',
+ 'C04-f': 'ikesa.py (data): KEYMAT split format arguments swapped (encr/integ widths exchanged)',
+ 'C05-e': 'message.py (addition): `Message.to_bytes` memoises its octets (stale after the COOKIE retry edits the message)',
+ 'C05-f': 'crypto.py (data): Integrity table entry (sha1, 160): an untruncated 20-octet ICV',
+ 'C06-e': 'message.py (addition): TLV transform attributes advance by their length field (0 = no progress)',
+ 'C06-f': 'message.py (data): new payload type 53 registered as PayloadSK (AttributeError escapes the parser)',
+ 'C07-e': 'crypto.py (addition): `Integrity.bind_key` fast path on an object shared by both directions',
+ 'C07-f': 'crypto.py (data): `hash_size` = digest_size // 2 (10 octets for SHA1)',
+ 'C08-e': 'ikesa.py (addition): hard EXPIRE in DPD_REQ_SENT resets the state and sends a second request with the same ID',
+ 'C08-f': 'ikesa.py (data): the successor IKE_SA is built with `self.is_initiator` on both roles',
+ 'C09-e': 'ikesacontroller.py (addition): "last used IKE_SA" fast path in the SPI lookup outlives the table entry',
+ 'C09-f': 'ikesa.py (data): DEL_AFTER_REKEY_IKE_SA_REQ_SENT renumbered out of the retransmission range',
+ 'C10-e': 'ikesa.py (addition): `except NetlinkError` in the CREATE_CHILD_SA response path untracks without deleting',
+ 'C10-f': 'ikesa.py (data): `IkeSa.__init__` parameter order my_addr/peer_addr swapped (positional callers at rekey)',
+ 'C11-e': 'message.py (addition): `Proposal.is_subset` fast path by plain set inclusion',
+ 'C11-f': 'ikesa.py (data): `chosen.intersection(mine)` instead of `mine.intersection(chosen)`',
+ 'C12-e': 'message.py (addition): `TrafficSelector.parse` widens the ports when the protocol is ANY',
+ 'C12-f': 'message.py (data): `get_port` returns the start of the range (0 = any port for the kernel)',
+ 'C13-e': 'ikesa.py (addition): retransmission bytes memoised by message ID (stale after COOKIE / INVALID_KE retries)',
+ 'C13-f': 'ikesa.py (data): DPD_REQ_SENT renumbered out of the retransmission range',
+ 'C14-e': 'xfrm.py (addition): `from_ipaddr` converts IPv4-mapped IPv6 addresses while the family stays AF_INET6',
+ 'C14-f': 'netlink.py (data): `NetlinkErrorMsg.error` declared c_uint32',
+ 'C15-e': 'ikesacontroller.py (addition): memo of handled ACQUIREs drops later ACQUIREs of the same policy',
+ 'C15-f': 'xfrm.py (data): `prefixlen_d` / `prefixlen_s` swapped in `XfrmSelector._fields_`',
+ 'C16-e': 'ikesacontroller.py (addition): memo CHILD_SA SPI -> IKE_SA survives the hand-over at rekey',
+ 'C16-f': 'ikesa.py (data): DEL_AFTER_REKEY_IKE_SA_REQ_SENT renumbered out of the retransmission range (entry never removed)',
+ 'C17-e': 'message.py (addition): TLV transform attribute with length 0 hangs the parser',
+ 'C17-f': 'ikesa.py (data): two IkeSa.State members share a value (alias): `None` is appended to the table',
+ 'C18-e': 'ikesacontroller.py (addition): "retransmitted IKE_SA_INIT" fast path by SPI, before the cookie logic',
+ 'C18-f': 'ikesa.py (data): cookie computed over `my_addr` instead of the initiator address',
+ 'C19-e': 'configuration.py (addition): ids starting with a letter are classified as names before ip_address() is tried',
+ 'C19-f': 'configuration.py (data): `ip_network(value, strict=False)`',
+ 'C20-e': 'ikesa.py (addition): bounded memo of PSK key pads; its KeyError carries the PSK into an ERROR record',
+ 'C20-f': "configuration.py (data): `.encode('ascii')`: the UnicodeEncodeError repr carries the PSK into an ERROR record",
+
 }
 
 
